@@ -602,6 +602,17 @@ def run_item(ctx, item):
     # the unfolders themselves (hooks judge each produced part)
     ok, umax = ctx.try_call(S.unfold_part_maximal, part, update_ids, ignore_leaps)
     ok2, umin = ctx.try_call(S.unfold_part_minimal, part)
+    # what the two entry points hand back (whichever way they built it): no bracket and no jump instruction is left in it,
+    # and it is not the argument
+    for name_, ok_, u_ in (("unfold_part_maximal", ok, umax), ("unfold_part_minimal", ok2, umin)):
+        if not ok_ or u_ is None:
+            continue
+        ctx.check()
+        left = [type(o).__name__ for cls_ in (S.Repeat, S.Ending, S.DaCapo, S.DalSegno, S.ToCoda) for o in timemaps.objects_of(u_, cls_)]
+        if left:
+            ctx.violation("unfolded-part-keeps-brackets-or-jump-instructions", f"{name_} returned a part that still holds {sorted(set(left))}", w)
+        if u_ is part:
+            ctx.violation("unfolded-part-is-the-argument", f"{name_} returned its argument", w)
     import itertools
     # enumerating all variants is exponential in the number of constructs: only for small structures
     small = meta["variants_estimate"] <= 48
